@@ -565,6 +565,12 @@ def adversarial_case(n, kind):
         return v.to_bytes(size, "big")
 
     shift = 8 * size - (n - 2).bit_length()
+    if shift < 0:
+        # fewer bits requested per candidate than n-2 has: the top values of
+        # [1, n-1] can never be drawn
+        return ("adversarial:request-too-small",
+                ">= %d bits per candidate" % (n - 2).bit_length(),
+                "%d bytes" % size)
     cands = {
         "all-ff": [b"\xff" * size] * 20,
         "all-00": [b"\x00" * size],
